@@ -29,6 +29,7 @@ CONSTANTS
     Policy,        \* "code" | "any"
     MaxRetry,      \* the code's constant (2): retry < MaxRetry
     AttemptBound,  \* the contract's bound on attempts / connections per query (4)
+    Dev,           \* set of further deviation switches (non-vacuity configs only), {} in every real config
     NoWgWait,      \* deviation: later callers do not wait for the early callers
     ExactScan,     \* TRUE: a new connection is dialled only if no pooled one can take the query (leg A)
     MaxFaults, Kinds, CancelCalls, EnvTClose, OrderedStart, WithHist
@@ -70,7 +71,7 @@ Init ==
 UDead(x) == health[x] = "dead" \/ uclosed[x]
 \* what lazyDnsConn.ReserveNewQuery reports
 ReportsClosed(x) == lz[x] = "failed" \/ (lz[x] = "dialed" /\ UDead(x))
-CanEarly(x) == lz[x] = "dialing" /\ early[x] < QueueLimit
+CanEarly(x) == lz[x] = "dialing" /\ (early[x] < QueueLimit \/ "no_queue_limit" \in Dev)
 WgOK(x) == NoWgWait \/ wg[x] = 0
 CanReal(x) == lz[x] = "dialed" /\ ~UDead(x) /\ inuse[x] < ConnCap /\ WgOK(x)
 Blocked(x) == lz[x] = "dialed" /\ ~WgOK(x)
@@ -88,11 +89,11 @@ GetRX(c) ==
     /\ pc[c] = "get" /\ tm = "free"
     /\ att' = [att EXCEPT ![c] = @ + 1]
     /\ got' = [got EXCEPT ![c] = FALSE]
-    /\ \/ /\ tclosed
+    /\ \/ /\ tclosed /\ "accept_after_close" \notin Dev
           /\ pc' = [pc EXCEPT ![c] = "done"] /\ res' = [res EXCEPT ![c] = "tclosed"]
           /\ failOK' = [failOK EXCEPT ![c] = TRUE]
           /\ UNCHANGED <<isNew, cur, lz, early, wg, dpc, inuse, conns, nd>>
-       \/ /\ ~tclosed
+       \/ /\ ~tclosed \/ "accept_after_close" \in Dev
           /\ \E x \in conns : \E drop \in SUBSET {y \in conns : ReportsClosed(y)} :
                /\ CanEarly(x) \/ CanReal(x)
                /\ conns' = conns \ drop
@@ -103,7 +104,7 @@ GetRX(c) ==
                     ELSE /\ inuse' = [inuse EXCEPT ![x] = @ + 1]
                          /\ pc' = [pc EXCEPT ![c] = "ready"] /\ UNCHANGED <<early, wg>>
           /\ UNCHANGED <<res, failOK, lz, dpc, nd>>
-       \/ /\ ~tclosed /\ nd < MaxDials
+       \/ /\ (~tclosed \/ "accept_after_close" \in Dev) /\ nd < MaxDials
           /\ ExactScan => \A x \in conns : ~CanEarly(x) /\ ~CanReal(x) /\ ~Blocked(x)
           /\ LET x == nd + 1 IN
                /\ nd' = x
@@ -126,7 +127,7 @@ EarlyWake(c) ==
               THEN /\ pc' = [pc EXCEPT ![c] = "decide"] /\ res' = [res EXCEPT ![c] = "other"]
                    /\ UNCHANGED <<wg, inuse, spurious>>
               ELSE /\ wg' = [wg EXCEPT ![x] = @ - 1]
-                   /\ IF ~UDead(x) /\ inuse[x] < ConnCap
+                   /\ IF ~UDead(x) /\ (inuse[x] < ConnCap \/ "no_cap_check" \in Dev)
                         THEN /\ inuse' = [inuse EXCEPT ![x] = @ + 1]
                              /\ pc' = [pc EXCEPT ![c] = "ready"]
                              /\ UNCHANGED <<res, spurious>>
@@ -162,19 +163,22 @@ ExchFail(c) ==
     /\ pc[c] = "exch" /\ (health[cur[c]] \in {"stale", "dead"} \/ uclosed[cur[c]])
     /\ inuse' = [inuse EXCEPT ![cur[c]] = @ - 1]
     /\ health' = [health EXCEPT ![cur[c]] = "dead"]
-    /\ pc' = [pc EXCEPT ![c] = "decide"] /\ res' = [res EXCEPT ![c] = "other"]
+    /\ IF "ok_on_fail" \in Dev THEN pc' = [pc EXCEPT ![c] = "done"] /\ res' = [res EXCEPT ![c] = "ok"]
+                             ELSE pc' = [pc EXCEPT ![c] = "decide"] /\ res' = [res EXCEPT ![c] = "other"]
     /\ H([a |-> "ExchRet", x |-> hid[cur[c]], c |-> c, r |-> "err"])
     /\ UNCHANGED <<att, isNew, cur, ctxDone, chistVars, lzVars, uclosed, tVars, spurious>>
 
 ExchCtx(c) ==
     /\ pc[c] = "exch" /\ ctxDone[c]
-    /\ inuse' = [inuse EXCEPT ![cur[c]] = @ - 1]
+    /\ inuse' = IF "no_release" \in Dev THEN inuse ELSE [inuse EXCEPT ![cur[c]] = @ - 1]
     /\ pc' = [pc EXCEPT ![c] = "decide"] /\ res' = [res EXCEPT ![c] = "ctx"]
     /\ H([a |-> "ExchRet", x |-> hid[cur[c]], c |-> c, r |-> "ctx"])
     /\ UNCHANGED <<att, isNew, cur, ctxDone, chistVars, lzVars, health, uclosed, tVars, spurious>>
 
 CodeRetry(c) == ~isNew[c] /\ att[c] <= MaxRetry /\ ~ctxDone[c]
-MayRetry(c) == IF Policy = "code" THEN CodeRetry(c) ELSE att[c] <= 6
+MayRetry(c) == CASE Policy = "code" -> CodeRetry(c)
+                 [] Policy = "noretry" -> FALSE
+                 [] OTHER -> att[c] <= 6
 MayFail(c) == IF Policy = "code" THEN ~CodeRetry(c) ELSE TRUE
 
 Retry(c) ==
@@ -201,13 +205,19 @@ DialInvoke(x, h) ==
     /\ UNCHANGED <<callVars, chistVars, lz, lclosed, early, wg, uVars, tVars, spurious>>
 
 DialOk(x) ==
-    /\ dpc[x] = "dialing" /\ dpc' = [dpc EXCEPT ![x] = "done"]
+    /\ dpc[x] = "dialing"
     /\ health' = [health EXCEPT ![x] = "ok"]
     /\ IF lclosed[x]
-         THEN uclosed' = [uclosed EXCEPT ![x] = TRUE] /\ UNCHANGED lz     \* closed while dialing: dc.Close()
-         ELSE lz' = [lz EXCEPT ![x] = "dialed"] /\ UNCHANGED uclosed
+         THEN dpc' = [dpc EXCEPT ![x] = "closing"] /\ UNCHANGED lz    \* closed while dialing: dc.Close() follows
+         ELSE dpc' = [dpc EXCEPT ![x] = "done"] /\ lz' = [lz EXCEPT ![x] = "dialed"]
     /\ H([a |-> "DialRet", x |-> hid[x], ok |-> TRUE])
-    /\ UNCHANGED <<callVars, chistVars, lclosed, early, wg, hid, inuse, tVars, spurious>>
+    /\ UNCHANGED <<callVars, chistVars, lclosed, early, wg, hid, inuse, uclosed, tVars, spurious>>
+
+DialCloseLate(x) ==
+    /\ dpc[x] = "closing" /\ dpc' = [dpc EXCEPT ![x] = "done"]
+    /\ uclosed' = [uclosed EXCEPT ![x] = TRUE]
+    /\ H([a |-> "UClose", x |-> hid[x]])
+    /\ UNCHANGED <<callVars, chistVars, lz, lclosed, early, wg, hid, health, inuse, tVars, spurious>>
 
 DialErr(x) ==
     /\ dpc[x] = "dialing" /\ dpc' = [dpc EXCEPT ![x] = "done"]
@@ -234,7 +244,7 @@ TCloseOne(x) ==
     /\ IF lz[x] = "dialing"
          THEN lz' = [lz EXCEPT ![x] = "failed"] /\ UNCHANGED uclosed /\ NoH
          ELSE /\ UNCHANGED lz
-              /\ IF lz[x] = "dialed"
+              /\ IF lz[x] = "dialed" /\ "close_skips_dialed" \notin Dev
                    THEN uclosed' = [uclosed EXCEPT ![x] = TRUE] /\ H([a |-> "UClose", x |-> hid[x]])
                    ELSE UNCHANGED uclosed /\ NoH
     /\ UNCHANGED <<callVars, chistVars, early, wg, hid, dpc, health, inuse, tVars, spurious>>
@@ -266,7 +276,7 @@ CloserStep == TCloseLock \/ (\E x \in ConnIds : TCloseOne(x)) \/ TCloseEnd
 
 Next ==
     \/ \E c \in Calls : Start(c) \/ CallProgress(c) \/ ExchOk(c) \/ Cancel(c)
-    \/ \E x \in ConnIds : DialInvoke(x, x) \/ DialOk(x) \/ DialErr(x)
+    \/ \E x \in ConnIds : DialInvoke(x, x) \/ DialOk(x) \/ DialErr(x) \/ DialCloseLate(x)
     \/ \E x \in ConnIds, k \in Kinds : Kill(x, k)
     \/ TCloseStart \/ CloserStep
 
@@ -277,7 +287,7 @@ Spec == Init /\ [][Next]_vars
 \* healthy server is Kill(x, "stale"); otherwise the exchange is answered (ExchOk fair).
 Progress ==
     \/ \E c \in Calls : CallProgress(c) \/ ExchOk(c)
-    \/ \E x \in ConnIds : DialInvoke(x, x) \/ DialOk(x) \/ DialErr(x)
+    \/ \E x \in ConnIds : DialInvoke(x, x) \/ DialOk(x) \/ DialErr(x) \/ DialCloseLate(x)
     \/ CloserStep
 FairSpec == Spec /\ WF_vars(Progress)
 
